@@ -779,7 +779,14 @@ fn p_files(s: &str) -> R<Vec<FileAndHash<Vec<u8>, Vec<u8>>>> {
 }
 
 fn build_mftc(num: Serial, this: Time, next: Time, files: &[FileAndHash<Vec<u8>, Vec<u8>>]) -> ManifestContent {
-    ManifestContent::new(num, this, next, DigestAlgorithm::sha256(), files.iter())
+    // the argument is any `IntoIterator`: the shape of the iterator (exact size, lower bound zero, chained) is
+    // picked from the content so that replays are stable
+    match (files.len() + num.into_array()[19] as usize) % 4 {
+        0 => ManifestContent::new(num, this, next, DigestAlgorithm::sha256(), files.iter()),
+        1 => ManifestContent::new(num, this, next, DigestAlgorithm::sha256(), files.iter().filter(|_| true)),
+        2 => { let h = files.len() / 2; ManifestContent::new(num, this, next, DigestAlgorithm::sha256(), files[..h].iter().chain(files[h..].iter().filter(|_| true))) }
+        _ => ManifestContent::new(num, this, next, DigestAlgorithm::sha256(), files.to_vec()),
+    }
 }
 
 /// mftc <number-hex> <this> <next> <files>
